@@ -59,7 +59,8 @@ def strategy(tier):
 def fixed_cases(tier):
     out = []
     progs = ["x = 1\n", "", "\n", "def f(a, *b, c=1):\n    'doc'\n    return [i for i in a if i]\n", "x = (1e999, -0.0, b'b', ..., 2**70)\ny = 'a' in {'a', 'b'}\n",
-             "if x:\n " + "x=1;" * 70 + "\ny = 2\n", "x = 'caf\u00e9'\n", "x = '\\n'\n"]
+             "if x:\n " + "x=1;" * 70 + "\ny = 2\n", "x = 'caf\u00e9'\n", "x = '\\n'\n",
+             'text = """first\n    \nlast"""\n', "def f():\n    \'\'\'doc\n\t\n    end\'\'\'\n", "para = 'one \u2028two'\nq = 'a\x85b\u2029'\n"]
     for s in progs:
         for how in SOURCES:
             for fl in ([], ["--json"], ["--no-normalize"], ["--json", "--no-normalize"], ["--dis", "--dis-after"], FLAGS,
